@@ -6,7 +6,9 @@ Every random choice derives from one `random.Random(seed)`; inputs are plain tup
 import random
 
 COSTS = ["1 1 2 2", "1 3 2 2", "3 1 2 2", "2 5 1 4", "1 1 0 0", "1 1 5 0", "1 1 0 5",
-         "4 1 3 7", "1 1 20 20", "2 3 40 1"]
+         "4 1 3 7", "1 1 20 20", "2 3 40 1",
+         # dyadic-rational cost vectors (exact as floats; the model sees them scaled by 4)
+         "1 1 3.5 2", "1 1 0.5 0.25", "2 2 7 4.5", "0.5 1.5 1.25 0.75", "5 1 2 2"]
 TRAJ = ("maximum", "revolve")
 
 
@@ -106,8 +108,12 @@ def invalid(tier):
 
 
 def rnd_costs(rng):
-    if rng.random() < 0.3:
+    x = rng.random()
+    if x < 0.3:
         return rng.choice(COSTS)
+    if x < 0.45:
+        q = lambda lo: rng.randint(lo, 80) / 4.0  # noqa: E731
+        return f"{q(1)} {q(1)} {q(0)} {q(0)}"
     return f"{rng.randint(1, 50)} {rng.randint(1, 50)} {rng.randint(0, 50)} {rng.randint(0, 50)}"
 
 
